@@ -14,7 +14,38 @@ NOTES = ("Every check: (1) regenerates the extracted data, rebuilds the Lean the
 CTL_NOTE = ("Trusted: Lean kernel (axioms propext, Classical.choice, Quot.sound only); the hand-written controller/algorithm model, tied to the code "
             "by the K-ctl correspondence (real async_launch::launch driven by scripted completion orders, outcomes, bursts, Terminate positions, "
             "abort-honouring/ignoring evaluations); tokio/futures scheduling itself is not modelled - an event is 'the select! loop takes this result'.")
+PROC_NOTE = ("Trusted: Lean kernel (axioms propext, Classical.choice, Quot.sound only); the hand-written process/CLI/report-writer models, tied to the code by K-proc: the real cambrian binary run with scripted "
+             "objprog children whose completion order is dictated through release files, survivors found by a /proc scan for a marker environment variable; OS semantics of process groups and signals are assumed (listed in DESIGN 3.5).")
 TEXT = {
+    "C07": {
+        "text": "PARTIAL. Theorems over the per-evaluation machine and the controller: a child finishing in time is never killed; timeout = killpg + waitpid + rejected; every other ending (abort, dropped future) kills the group; every started "
+                "evaluation is accounted for at the return (processed, failed, or dropped - and the dropped list is exactly what is in flight then). The claim about real processes rests on OS assumptions and on running the real binary: every "
+                "termination cause x concurrency x child behaviour (slow, forks background processes, ignores SIGTERM, fails), with the set of siblings in flight at the end chosen through release files, then a /proc scan. Known finding D7 "
+                "(background process of a normally exited child) is reported as KNOWN-FINDING.",
+        "design_ref": "7 (C07), 3.5, 9 (D3, D7)", "note": PROC_NOTE,
+        "technique": "Lean 4 proof over a process-evaluation state machine composed with the controller invariant + process-level differential runs with /proc scan",
+    },
+    "C14": {
+        "text": "PARTIAL for the scale clause. Theorems: C14_counts(_always) (report counts = numbers of accepted/rejected items, for every event list, also on failure), C14_items (every record belongs to a started evaluation with that id and seed), "
+                "C14_file (after any record sequence the writer holds one row per record and the best-seen file holds a minimum-objective record), C14_meta_probs (adaptive probabilities in [0,1] under FL-mul-sign). The CSV, best_seen.json and summary "
+                "of real runs are parsed and compared with the children's own log and with the writer model; probabilities and scale of every in-run record are checked.",
+        "design_ref": "7 (C14), 4 (L7)", "note": PROC_NOTE,
+        "technique": "Lean 4 invariant proofs (controller items, fold over the item stream) + process-level and in-run differential checks",
+    },
+    "C15": {
+        "text": "PARTIAL. Theorems: bounded number of processed completions under a budget, the loop is alive only while something is in flight, no pass of the select! loop can spin (stated over the guard extracted from controller.rs; negative witness for the "
+                "unguarded loop), guards of modelled panic sites (probabilities, enum/variant switches, variant initial option). Tested: the real binary with children writing empty / huge / non-UTF-8 / partial output x stderr variants x verbose on/off (twin runs "
+                "must agree), hang watchdogs in every correspondence, panics caught in every in-process correspondence, panic-site inventory lint.",
+        "design_ref": "7 (C15), 3.4, 3.6, 9 (D2, D12)", "note": PROC_NOTE,
+        "technique": "Lean 4 termination/measure proofs over controller and poll-level models with source-extracted guards + crash/hang watchdogs in all differential runs",
+    },
+    "C16": {
+        "text": "PARTIAL (glue compared, not proved). Theorems over the child-result schema, argv construction and the CLI decision function: accepted iff exit 0 and a finite objFuncVal; null/absent = rejection; anything else fails; invalid options/inputs are "
+                "rejected before launch; an existing output directory without --force is refused untouched; success = exit 0 + one stdout line (+ files); failing child = non-zero exit, no stdout, diagnostic files. The real binary is compared with "
+                "these decisions on generated option combinations, hostile keys, user argument lists with spaces/quotes/non-UTF-8 bytes/leading dashes, and every child result encoding.",
+        "design_ref": "7 (C16), 4 (L8, L9)", "note": PROC_NOTE,
+        "technique": "Lean 4 decision-table theorems + process-level differential runs of the real binary",
+    },
     "C01": {
         "text": "Theorems C01_init / C01_guess / C01_cross / C01_mut (closure of the initial value, the guess reader and both operators' acceptors under conformance, for every spec, value, nesting and probability class) and "
                 "C01_run / C01_report (controller + core model with V := VNode: every start action and the reported best-seen carry a conforming value, for every event list, sample size and concurrency, given that each offspring "
